@@ -1,9 +1,9 @@
 From Coq Require Extraction.
 From Coq Require Import ExtrOcamlBasic.
-From AIT Require Import Base.Vio Base.Qx Base.Mdp C11.Model C11.Spec.
+From AIT Require Import Base.Vio Base.Qx Base.Mdp C11.Model C11.Spec C11.SpecDQ.
 Extraction "model.ml" vio_kit qzero qget upd2 ql_step sarsa_step esarsa_step hyst_step dq_step
   dyna_step dyna_batch update_traces sarsal_step offctrl_step offctrl_step_legacy offeval_step
   sl_ctor sl_set_discount sl_set_lambda sl_set_alpha sl_set_tol sarsal_step_p d2_step d2_batch d2_reset
   ps_init ps_step ps_batch ps_init_g ps_step_ne ps_batch_ne is_top queued
   in_boxb in_box2b one_step egreedy_row point_row traces_inb uniq_keysb ps_invb ps_bellmanb bellman_q
-  maxl argmax dot.
+  maxl argmax dot dq_expected dq_documentedb.
